@@ -22,7 +22,7 @@ RULE = ("case = one generated call sequence (<= 30 calls) against one front end 
 ACCOUNT = "0123456789"
 ROLES = {"r1": "arn:aws:iam::%s:role/service-role/MyRole" % ACCOUNT, "r2": "arn:aws:iam::%s:role/other" % ACCOUNT,
          "bad_account": "arn:aws:iam::abc:role/x", "not_arn": "role", "empty": "", "number": 17}
-NAMES = {"m1": "m1", "m2": "m2", "m3": "M-3_x.y", "space": "bad name", "empty": "", "long": "x" * 81, "max": "y" * 80, "colon": "a:b", "number": 5, "star": "a*"}
+NAMES = {"m1": "m1", "m2": "m1-b", "m3": "M-3_x.y", "space": "bad name", "empty": "", "long": "x" * 81, "max": "y" * 80, "colon": "a:b", "number": 5, "star": "a*"}
 D_PASS = {"StartAt": "P", "States": {"P": {"Type": "Pass", "End": True}}}
 D_PASS2 = {"Comment": "second version", "StartAt": "Q", "States": {"Q": {"Type": "Pass", "Result": {"v": 2}, "End": True}}}
 D_FAIL = {"StartAt": "F", "States": {"F": {"Type": "Fail", "Error": "E", "Cause": "c"}}}
@@ -485,7 +485,19 @@ def strategies():
         reads = lambda: [draw(st.sampled_from([{"op": "describe", "sm": nm}, {"op": "list"}, {"op": "describe", "sm": nm}]))]
         mid = draw(st.lists(one, max_size=3))
         return draw(st.lists(one, max_size=5)) + [mk(d1)] + reads() + [{"op": "delete", "sm": nm}] + mid + [mk(d2)] + reads() + draw(st.lists(one, max_size=5))
-    ops = st.one_of(plain_ops, plain_ops, plain_ops, recreate())
+    # directed: several live machines (one name is a prefix of another) with executions of their own, then ListExecutions with every kind of filter
+    @st.composite
+    def listing(draw):
+        nms = draw(st.permutations(["m1", "m2", "m3"]))[:draw(st.integers(2, 3))]
+        out = [{"op": "create", "name": nm, "role": "r1", "def": draw(good_def), "type": draw(st.sampled_from(["omit", "STANDARD", "STANDARD", "EXPRESS"])), "log": "omit"} for nm in nms]
+        for _ in range(draw(st.integers(1, 6))):
+            out.append({"op": "start", "sm": draw(st.sampled_from(nms)), "name": draw(st.sampled_from(["fresh", "fresh", "auto"])), "input": draw(st.sampled_from(["omit", "obj", "list", "null"]))})
+            out.extend(draw(st.lists(one, max_size=1)))
+        flt = st.sampled_from([None, None, "RUNNING", "SUCCEEDED", "FAILED", "TIMED_OUT", "ABORTED", "BOGUS", "", ["RUNNING"], 7, 0, False, {}, []])
+        for _ in range(draw(st.integers(2, 6))):
+            out.append({"op": "list_executions", "sm": draw(st.sampled_from(nms)), "filter": draw(flt)})
+        return out + draw(st.lists(one, max_size=4))
+    ops = st.one_of(plain_ops, plain_ops, plain_ops, recreate(), listing())
     return st.fixed_dictionaries({"front": st.sampled_from(["asyncio", "blocking"]), "validate_asl": st.booleans(), "ops": ops})
 
 
